@@ -1,4 +1,5 @@
 pub mod chunk;
+pub mod framing;
 pub mod head;
 pub mod request;
 pub mod rfc3986;
